@@ -18,7 +18,7 @@ HOOKS = {
 
 ENGINES = [
     {'name': 'vf', 'path': 'vf/harness.py',
-     'serves_properties': ['C01', 'C02', 'C03', 'C04', 'C05', 'C06', 'C07', 'C08', 'C09', 'C13', 'C15', 'C16', 'C17', 'C20'],
+     'serves_properties': ['C01', 'C02', 'C03', 'C04', 'C05', 'C06', 'C10', 'C07', 'C08', 'C09', 'C13', 'C15', 'C16', 'C17', 'C20'],
      'kind_free_text': ('runtime monitoring driver: 16 worker processes import the real '
                         'openhtf from /repo, run enumerated + seeded cases, monitors '
                         'decide each property from observed events; witnesses are '
@@ -211,5 +211,18 @@ CHECKS = {
                  'the complete new serialization'),
         'note': ('write/close faults are injected through the documented extension points (open_file, '
                  'serialize_test_record) and module attribute shims; needs ptrace (strace -p) in the sandbox'),
+    },
+    'C10': {
+        'level': 'exploration',
+        'technique': 'runtime differential monitoring: independent from-scratch renderer of the public attributes vs the cached base-type views (live PhaseState/TestState reads inside the phase body, final TestRecord) and strict parsing of OutputToJSON bytes under serialisation histories',
+        'text': ('live histories (all of length <= 2, hashed subset of length 3/4, seeded up to length 8) of set / override / '
+                 'coordinate set / attach / log / read over five measurements (precision, transform, validator that raises on '
+                 'non-numbers, 1-D, 2-D) with values None, bool, int, float incl. NaN and +-inf, str, enums, nested '
+                 'lists/tuples/str-keyed dicts; every read compares PhaseState.as_base_types() and TestState.as_base_types() '
+                 'with the renderer; final records of directed and seeded E1 programs (subtests, branches, checkpoints, '
+                 'diagnoses, outcome details, logs) are compared; every sequence of length <= 3 over {as_base_types, '
+                 'OutputToJSON inline / not inline / allow_nan} is run on one record: strict JSON, decoded structure equals the '
+                 'renderer, attachments round-trip through base64, as_base_types() stays base types'),
+        'note': 'trusts vf/render.py (written from the documented conversion rules); tuples and lists are identified',
     },
 }
